@@ -140,6 +140,20 @@ fn find_fn(items: &[syn::Item], container: &str, name: &str, desc: &str) -> Foun
 }
 
 fn find_item(items: &[syn::Item], kind: &str, name: &str, desc: &str) -> syn::Item {
+    if kind == "impl" {
+        // whole impl block (associated consts / types only), matched by header
+        let want = squash(name);
+        let hits: Vec<&syn::Item> = items.iter().filter(|it| matches!(it, syn::Item::Impl(im) if impl_header(im) == want)).collect();
+        if hits.len() != 1 {
+            die("lost-anchor", &format!("impl block: {} matches for {}", hits.len(), desc));
+        }
+        if let syn::Item::Impl(im) = hits[0] {
+            if im.items.iter().any(|ii| matches!(ii, syn::ImplItem::Fn(_))) {
+                die("template", &format!("`item impl` is for impls without functions: {}", desc));
+            }
+        }
+        return hits[0].clone();
+    }
     for it in items {
         let ok = match (kind, it) {
             ("struct", syn::Item::Struct(s)) => s.ident == name,
@@ -458,7 +472,8 @@ fn replace_iter_markers(s: &str) -> String {
 fn emit_item(src: &str, rest: &str, opts: &BTreeMap<String, String>, srcs: &mut Sources, out: &mut Out, stats: &mut norm::Stats, indent: usize) {
     let mut it = rest.split_whitespace();
     let kind = it.next().unwrap_or("");
-    let name = it.next().unwrap_or("");
+    let name_owned: String = if kind == "impl" { it.collect::<Vec<_>>().join(" ") } else { it.next().unwrap_or("").to_string() };
+    let name: &str = &name_owned;
     let desc = format!("{} | {} {}", src, kind, name);
     let file = srcs.get(src);
     let modpath: Vec<&str> = match opts.get("mod") {
@@ -471,6 +486,11 @@ fn emit_item(src: &str, rest: &str, opts: &BTreeMap<String, String>, srcs: &mut 
     };
     let mut item = find_item(items, kind, name, &desc);
     norm::strip_item_attrs(&mut item, stats);
+    if let (Some(st), syn::Item::Impl(im)) = (opts.get("selfty"), &mut item) {
+        // the impl is placed in another module than in the source: name its self type by path
+        let ty: syn::Type = syn::parse_str(st).unwrap_or_else(|_| die("template", &format!("bad selfty in {}", desc)));
+        *im.self_ty = ty;
+    }
     let s = printer::pretty(item.to_token_stream(), indent);
     let start = out.cur();
     if let Some(d) = opts.get("derive") {
